@@ -150,7 +150,7 @@ pub fn group_values(name: &str) -> Vec<u64> {
         // zero columns and its decommitted values emptied (0 x queries == 0 cells)
         "zero_columns" => vec![0, 1, 2, 3],
         // output segment of v cells / program of v cells (spans at the edge of the machine word)
-        "output_span" => vec![1, 5, 1 << 32, 1 << 63, u64::MAX - 1, u64::MAX],
+        "output_span" => vec![0, 1, 5, 1 << 32, 1 << 63, u64::MAX - 1, u64::MAX],
         "program_span" => vec![0, 1 << 32, 1 << 63, u64::MAX - 5, u64::MAX - 1, u64::MAX],
         // one surplus trailing FRI step x (v<100: x = v; v>=100: x = p-(v-100)) with the last-layer bound
         // re-declared to lb - x, so that a sum over the WHOLE step vector still matches the trace size
@@ -477,6 +477,25 @@ pub fn edits_for(base: &Value, rng: &mut Rng, thorough: bool, budget_singles: us
     out
 }
 
+/// which precondition of fri_commit the malformed proof breaks, judged with the C11 predicate model
+/// (not with the code under test)
+fn fri_commit_shape<T>(layout: &str, p: &StarkProof) -> &'static str {
+    let (n1, n2) = crate::with_layout!(layout, L, { (L::get_num_columns_first(&p.public_input).unwrap_or(1) as u64, L::get_num_columns_second(&p.public_input).unwrap_or(1) as u64) });
+    let (exp, _) = crate::config_check::predicate(&p.config, &BigUint::from(0u8), n1, n2);
+    if exp == crate::config_check::Expect::Reject {
+        return "the configuration is one the statement excludes";
+    }
+    let nl = fu64(&p.config.fri.n_layers).unwrap_or(0) as usize;
+    let lb = fu64(&p.config.fri.log_last_layer_degree_bound).unwrap_or(64);
+    if p.unsent_commitment.fri.inner_layers.len() + 1 < nl {
+        "fewer FRI layer commitments than the valid configuration's n_layers-1"
+    } else if lb > 40 || p.unsent_commitment.fri.last_layer_coefficients.len() as u64 != (1u64 << lb) {
+        "last layer length differs from 2^bound of the valid configuration"
+    } else {
+        "valid configuration, complete commitments"
+    }
+}
+
 fn standalone<L: LayoutTrait + GenericLayoutTrait>(p: &StarkProof) -> Vec<(&'static str, Option<PanicRecord>)> {
     let mut out = vec![];
     let n1 = L::get_num_columns_first(&p.public_input).unwrap_or(1);
@@ -535,7 +554,13 @@ pub fn run(args: &Args) -> Report {
                 rep.inc(&format!("outcome.{}", match &run.verdict { Verdict::Accepted(..) => "accepted", Verdict::Rejected(_) => "error_value", Verdict::Panicked(p) if p.is_budget() => "event_budget", Verdict::Panicked(_) => "panic" }));
                 match &run.verdict {
                     Verdict::Panicked(p) if !p.is_budget() => {
-                        let sig = panic_signature(p, &repo);
+                        let mut sig = panic_signature(p, &repo);
+                        // panics inside fri_commit are recorded findings for two precise input shapes;
+                        // the shape is part of the signature, so another way of reaching the same line
+                        // (e.g. a configuration that validation should have refused) is a new violation
+                        if sig.contains("crates/fri/src/fri.rs") {
+                            sig = format!("{sig}|shape: {}", fri_commit_shape::<()>(&h.layout, &mp));
+                        }
                         rep.violation(&format!("C18|verify|{sig}"), &format!("StarkProof::verify panicked at {}:{} ({}) on a well-typed malformed proof [{}]", p.file, p.line, p.msg.chars().take(100).collect::<String>(), edit_class(&e)), d.clone());
                     }
                     Verdict::Rejected(r) => {
